@@ -337,12 +337,14 @@ def check(ctx, fx):
         env[lc["id"]] = sem.vals(lc["init"], env)
     defer = None
     blocks = {b["id"]: b for b in v["blocks"]}
+    bool_inits = {k_: i_ for k_, i_ in C.single_inits(v).items()}
     # the heuristic: an if whose condition tree mentions last_non_dot and whose true edge returns nullopt
     for b in v["blocks"]:
         t = b["term"]
         if t.get("kind") != "IfStmt" or t.get("cond") is None:
             continue
-        full = t["cond"]
+        # named sub-conditions (`const bool ends_in_digit = …; if (ends_in_digit || …)`) are read through
+        full = C.subst_inits(t["cond"], bool_inits)
         if not sem.mentions(full, env):
             continue
         if "last_non_dot" not in X.show(full) and "lc" not in X.show(full):
